@@ -62,7 +62,7 @@ SKIPLIST_KANI = [_ki('skiplist_comparators', tier='quick', timeout=300)] + \
 PROPS = {
     'C01': {
         'level': 'proof',
-        'verus': [{'group': 'shard_core'}, _sg('shard_strings'), {'group': 'shard_sweeper', 'units': ['rename_same_shard', 'rename_cross_shard']}, _cg('cmd_strings', True), _cg('srv_strings')],
+        'verus': [{'group': 'shard_core'}, _sg('shard_strings'), {'group': 'shard_sweeper', 'units': ['rename_same_shard', 'rename_cross_shard']}, _cg('cmd_strings', True), _cg('srv_strings'), {'group': 'srv_conn'}],
         'kani': SETRANGE_KANI,
         'explanation': 'kernel-scoped: storage-engine string/key functions proved against Redis-semantics spec functions on one shard; handlers/dispatch are unverified surroundings',
     },
@@ -79,7 +79,7 @@ PROPS = {
     },
     'C04': {
         'level': 'proof',
-        'verus': [{'group': 'c04_zset_arith'}, {'group': 'shard_zsets', 'units': ['zadd', 'zincrby', 'zrem']}],
+        'verus': [{'group': 'c04_zset_arith'}, {'group': 'shard_zsets', 'units': ['zadd', 'zincrby', 'zrem']}, _cg('srv_zsets')],
         'kani': SKIPLIST_KANI,
         'explanation': 'rank-range arithmetic of ZRANGE/ZREVRANGE/ZRANK against spec_zrange with the skip list behind an assumed contract',
     },
@@ -88,7 +88,7 @@ PROPS = {
         # C06 = the safety obligations (overflow, bounds, slice ranges, unwrap, preconditions of callees such as the
         # allocation budget) of EVERY unit under contract, for all argument values
         'verus': [{'group': g, 'kinds': ['safety', 'requires-at-call', 'decreases', 'invariant']} for g in
-                  ['shard_core', 'shard_strings', 'shard_lists', 'shard_sweeper', 'shard_sets', 'shard_hashes', 'shard_zsets', 'cmd_strings', 'cmd_lists', 'cmd_sets', 'cmd_hashes', 'c03_lists_arith', 'c04_zset_arith', 'c19_scan', 'c20_parser', 'c20_serializer', 'c10_bgsave', 'c11_aof', 'c09_rdb', 'c13_blocking', 'c07_transactions', 'shard_flush', 'c14_pubsub', 'srv_strings']]
+                  ['shard_core', 'shard_strings', 'shard_lists', 'shard_sweeper', 'shard_sets', 'shard_hashes', 'shard_zsets', 'cmd_strings', 'cmd_lists', 'cmd_sets', 'cmd_hashes', 'c03_lists_arith', 'c04_zset_arith', 'c19_scan', 'c20_parser', 'c20_serializer', 'c10_bgsave', 'c11_aof', 'c09_rdb', 'c13_blocking', 'c07_transactions', 'shard_flush', 'c14_pubsub', 'srv_strings', 'srv_zsets']]
                  # server-level units: their index/slice/overflow/unwrap/termination obligations only (their call preconditions are model permissions, not crashes)
                  + [{'group': g, 'kinds': ['safety', 'decreases']} for g in ['srv_exec', 'srv_frame', 'srv_conn', 'srv_auth', 'srv_push', 'srv_notify', 'srv_aof', 'srv_select', 'srv_wake', 'srv_pubsub']],
         'kani': STREAM_KANI[:1] + RDB_TOTAL_KANI,
